@@ -32,8 +32,8 @@ Proof.
   - destruct (N.eqb c NL); [destruct mk; discriminate|].
     destruct (is_marker_char c); [discriminate|].
     destruct (is_blank c); discriminate.
-  - destruct (has_suffix (v ++ [c]) e); [|discriminate].
-    destruct args; [congruence|discriminate].
+  - destruct (has_suffix v e && (is_blank c || N.eqb c NL)); [|discriminate].
+    destruct args; [congruence|]. destruct (N.eqb c NL); discriminate.
 Qed.
 
 Lemma step_inv s c s' : inv s -> step false s c = Cont s' -> inv s'.
@@ -67,15 +67,18 @@ Proof.
     { intros H; inversion H; subst; simpl. exact Hinv. }
     destruct (is_blank c); [|discriminate].
     intros H; inversion H; subst; simpl. exact Hinv.
-  - destruct (has_suffix (v ++ [c]) e).
-    + destruct args; [congruence|]. intros H; inversion H; subst; simpl. right; discriminate.
+  - destruct (has_suffix v e && (is_blank c || N.eqb c NL)).
+    + destruct args; [congruence|]. destruct (N.eqb c NL); [discriminate|].
+      intros H; inversion H; subst; simpl. right; discriminate.
     + intros H; inversion H; subst; simpl. exact Hinv.
 Qed.
 
 Lemma run_no_panic input : forall s, inv s -> run false s input <> RPanic.
 Proof.
   induction input as [|c input IH]; intros s Hinv; simpl.
-  - destruct (s_mode s); discriminate.
+  - unfold inv in Hinv. destruct (s_mode s); try discriminate.
+    destruct (has_suffix value eofseq); [|discriminate].
+    destruct (s_args s); [congruence|discriminate].
   - destruct (step false s c) as [s'| | |] eqn:E.
     + apply IH. eapply step_inv; eauto.
     + discriminate.
@@ -101,7 +104,8 @@ Lemma run_rest q input : forall s args rest,
               forall rest', run q s (pre ++ NL :: rest') = ROk args false rest'.
 Proof.
   induction input as [|c input IH]; intros s args rest H; simpl in H.
-  - destruct (s_mode s); discriminate.
+  - destruct (s_mode s); try discriminate.
+    destruct (has_suffix value eofseq); [|discriminate]. destruct (s_args s); discriminate.
   - destruct (step q s c) as [s'|a| |] eqn:E; try discriminate.
     + destruct (IH _ _ _ H) as [pre [Hp Hr]]. exists (c :: pre). split.
       * simpl. f_equal. exact Hp.
@@ -121,8 +125,9 @@ Proof.
         -- destruct (N.eqb c NL); [destruct m; discriminate|].
            destruct (is_marker_char c); [discriminate|].
            destruct (is_blank c); discriminate.
-        -- destruct (has_suffix (v ++ [c]) e); [|discriminate].
-           destruct (s_args s); discriminate. }
+        -- destruct (has_suffix v e && (is_blank c || N.eqb c NL)); [|discriminate].
+           destruct (s_args s); [discriminate|].
+           destruct (N.eqb c NL) eqn:En; [apply N.eqb_eq in En; exact En|discriminate]. }
       subst c. exists []. split; [reflexivity|].
       intros rest'. cbn [app run]. rewrite E. reflexivity.
 Qed.
@@ -137,7 +142,10 @@ Lemma run_eof q input : forall s args rest,
   run q s input = ROk args true rest -> rest = [].
 Proof.
   induction input as [|c input IH]; intros s args rest H; simpl in H.
-  - destruct (s_mode s); try discriminate. inversion H; reflexivity.
+  - destruct (s_mode s); try discriminate.
+    + inversion H; reflexivity.
+    + destruct (has_suffix value eofseq); [|discriminate].
+      destruct (s_args s); [discriminate|]. inversion H; reflexivity.
   - destruct (step q s c) as [s'|a| |]; try discriminate. eauto.
 Qed.
 
@@ -185,6 +193,18 @@ Definition token (q : bool) (t a : bytes) : Prop :=
   forall args tail,
     run q (mkSt args false true Main) (t ++ tail) = run q (mkSt (a :: args) false false Main) tail.
 
+(** A heredoc ends only where a blank, a tab, a newline or the end of the input follows its
+    marker, so it is a token in the weaker sense: for every continuation that starts so. *)
+Definition is_sepb (c : byte) : bool := is_blank c || N.eqb c NL.
+Definition starts_sep (tail : bytes) : bool :=
+  match tail with [] => true | c :: _ => is_sepb c end.
+Definition wtoken (q : bool) (t a : bytes) : Prop :=
+  forall args tail, starts_sep tail = true ->
+    run q (mkSt args false true Main) (t ++ tail) = run q (mkSt (a :: args) false false Main) tail.
+
+Lemma token_wtoken q t a : token q t a -> wtoken q t a.
+Proof. intros H args tail _. apply H. Qed.
+
 Lemma token_word q w : good_word w = true -> token q w w.
 Proof.
   intros Hg args tail. destruct w as [|c w]; [discriminate|].
@@ -215,38 +235,39 @@ Proof. reflexivity. Qed.
 (** Blank-separated tokens followed by a newline: exactly the denoted arguments, not at EOF,
     and the reader is left right after the newline. *)
 Lemma run_tokens q ts : forall as_ args r,
-  Forall2 (token q) ts as_ ->
+  Forall2 (wtoken q) ts as_ ->
   run q (mkSt args false true Main) (join_sp ts ++ NL :: r) = ROk (rev args ++ as_) false r.
 Proof.
   induction ts as [|t ts IH]; intros as_ args r HF; inversion HF as [|t' a ts' as' Ht HF']; subst.
   - cbn. rewrite app_nil_r. reflexivity.
   - destruct ts as [|t2 ts].
-    + inversion HF'; subst. cbn [join_sp]. rewrite Ht. reflexivity.
-    + rewrite join_sp_cons2. rewrite <- app_assoc. rewrite Ht.
+    + inversion HF'; subst. cbn [join_sp]. rewrite Ht by reflexivity. reflexivity.
+    + rewrite join_sp_cons2. rewrite <- app_assoc. rewrite Ht by reflexivity.
       cbn [app run]. rewrite step_blank by reflexivity.
       rewrite (IH as' (a :: args) r HF'). cbn [rev]. rewrite <- app_assoc. reflexivity.
 Qed.
 
 Lemma run_tokens_eof q ts : forall as_ args,
-  Forall2 (token q) ts as_ ->
+  Forall2 (wtoken q) ts as_ ->
   run q (mkSt args false true Main) (join_sp ts) = ROk (rev args ++ as_) true [].
 Proof.
   induction ts as [|t ts IH]; intros as_ args HF; inversion HF as [|t' a ts' as' Ht HF']; subst.
   - cbn. rewrite app_nil_r. reflexivity.
   - destruct ts as [|t2 ts].
-    + inversion HF'; subst. cbn [join_sp]. rewrite <- (app_nil_r t). rewrite Ht. reflexivity.
-    + rewrite join_sp_cons2. rewrite Ht.
+    + inversion HF'; subst. cbn [join_sp]. rewrite <- (app_nil_r t). rewrite Ht by reflexivity.
+      reflexivity.
+    + rewrite join_sp_cons2. rewrite Ht by reflexivity.
       cbn [app run]. rewrite step_blank by reflexivity.
       rewrite (IH as' (a :: args) HF'). cbn [rev]. rewrite <- app_assoc. reflexivity.
 Qed.
 
 Theorem read_args_tokens ts as_ r :
-  Forall2 (token false) ts as_ ->
+  Forall2 (wtoken false) ts as_ ->
   read_args (join_sp ts ++ NL :: r) = ROk as_ false r.
 Proof. intros H. unfold read_args, init_st. rewrite (run_tokens false ts as_ [] r H). reflexivity. Qed.
 
 Theorem read_args_tokens_eof ts as_ :
-  Forall2 (token false) ts as_ -> read_args (join_sp ts) = ROk as_ true [].
+  Forall2 (wtoken false) ts as_ -> read_args (join_sp ts) = ROk as_ true [].
 Proof. intros H. unfold read_args, init_st. rewrite (run_tokens_eof false ts as_ [] H). reflexivity. Qed.
 
 Lemma Forall2_same {A} (P : A -> A -> Prop) l : Forall (fun x => P x x) l -> Forall2 P l l.
@@ -261,7 +282,7 @@ Theorem read_args_words ws r :
   read_args (join_sp ws ++ NL :: r) = ROk ws false r.
 Proof.
   intros H. apply read_args_tokens. apply Forall2_same.
-  apply Forall_forall. intros w Hw. apply token_word.
+  apply Forall_forall. intros w Hw. apply token_wtoken, token_word.
   rewrite forallb_forall in H. auto.
 Qed.
 
@@ -311,14 +332,14 @@ Theorem read_args_quote_roundtrip args r :
   read_args (quote args ++ NL :: r) = ROk args false r.
 Proof.
   apply read_args_tokens. unfold quote. apply Forall2_map_l.
-  apply Forall_forall. intros a _. apply token_quote1.
+  apply Forall_forall. intros a _. apply token_wtoken, token_quote1.
 Qed.
 
 Theorem read_args_quote_roundtrip_eof args :
   read_args (quote args) = ROk args true [].
 Proof.
   apply read_args_tokens_eof. unfold quote. apply Forall2_map_l.
-  apply Forall_forall. intros a _. apply token_quote1.
+  apply Forall_forall. intros a _. apply token_wtoken, token_quote1.
 Qed.
 
 (** * Backslash-newline continues the line. *)
@@ -356,31 +377,36 @@ Qed.
 
 (** * Heredoc arguments. *)
 
-(** The terminator [e] occurs in [d] for the first time at the very end. *)
-Definition first_match_at_end (e d : bytes) : bool :=
-  has_suffix d e &&
-  forallb (fun n => negb (has_suffix (firstn n d) e)) (seq 1 (length d - 1)).
+(** Scanning condition: fed [x] from the value [v], the data loop does not stop before the end
+    of [x] (it stops where the value ends in the terminator [e] AND a separator byte comes). *)
+Fixpoint no_early (e v x : bytes) : bool :=
+  match x with
+  | [] => true
+  | c :: x' => negb (has_suffix v e && is_sepb c) && no_early e (v ++ [c]) x'
+  end.
 
 Lemma run_heredata q base cur e : forall x v rest esc sep tail,
-  x <> [] ->
+  no_early e v x = true ->
   has_suffix (v ++ x) e = true ->
-  (forall n, (1 <= n < length x)%nat -> has_suffix (v ++ firstn n x) e = false) ->
+  starts_sep tail = true ->
   run q (mkSt (cur :: rest) esc sep (HereData base e v)) (x ++ tail)
-  = run q (mkSt ((base ++ trim (firstn (length (v ++ x) - length e) (v ++ x))) :: rest) esc sep Main) tail.
+  = run q (mkSt (here_value base e (v ++ x) :: rest) false false Main) tail.
 Proof.
-  induction x as [|c x IH]; intros v rest esc sep tail Hne Hend Hnot; [congruence|].
-  cbn [app run]. unfold step; cbn [s_mode s_esc s_sep s_args].
-  destruct (list_eq_dec N.eq_dec x []) as [Ex|Ex].
-  - subst x. replace (has_suffix (v ++ [c]) e) with true by (symmetry; exact Hend). reflexivity.
-  - assert (H1 : has_suffix (v ++ [c]) e = false).
-    { specialize (Hnot 1%nat). cbn [firstn] in Hnot. apply Hnot.
-      destruct x; [exfalso; apply Ex; reflexivity|]. simpl. lia. }
-    rewrite H1.
-    specialize (IH (v ++ [c]) rest esc sep tail).
-    rewrite <- app_assoc in IH. cbn [app] in IH.
-    rewrite IH; [reflexivity|exact Ex|exact Hend|].
-    intros n Hn. specialize (Hnot (S n)). cbn [firstn] in Hnot.
-    rewrite <- app_assoc. cbn [app]. apply Hnot. simpl in *. lia.
+  induction x as [|c x IH]; intros v rest esc sep tail Hne Hend Hs.
+  - rewrite app_nil_r in *. cbn [app]. destruct tail as [|c tl].
+    + cbn [run s_mode s_args]. rewrite Hend. reflexivity.
+    + cbn [starts_sep] in Hs. unfold is_sepb in Hs.
+      cbn [run]. unfold step at 1; cbn [s_mode s_esc s_sep s_args].
+      rewrite Hend, Hs. cbn [andb]. destruct (N.eqb c NL) eqn:En.
+      * apply N.eqb_eq in En. subst c. reflexivity.
+      * rewrite orb_false_r in Hs. rewrite step_blank by exact Hs. reflexivity.
+  - cbn [no_early] in Hne. apply andb_true_iff in Hne as [H1 H2]. apply negb_true_iff in H1.
+    unfold is_sepb in H1.
+    cbn [app run]. unfold step at 1; cbn [s_mode s_esc s_sep s_args]. rewrite H1.
+    rewrite (IH (v ++ [c]) rest esc sep tail H2).
+    + rewrite <- app_assoc. reflexivity.
+    + rewrite <- app_assoc. exact Hend.
+    + exact Hs.
 Qed.
 
 Lemma has_suffix_app a s : has_suffix (a ++ s) s = true.
@@ -409,15 +435,19 @@ Proof.
     rewrite <- app_assoc. reflexivity.
 Qed.
 
-Lemma token_heredoc q k M t :
+(** The general form: [u] is everything between the newline of the opening line and the closing
+    marker (empty, or lines each ended by a newline). *)
+Lemma token_heredoc_gen q k M u :
   good_word (k ++ [EQS; LT]) = true ->
   M <> [] -> forallb is_marker_char M = true ->
-  first_match_at_end (NL :: M) (t ++ NL :: M) = true ->
-  token q (k ++ [EQS; LT; LT] ++ M ++ NL :: t ++ NL :: M) (k ++ EQS :: trim t).
+  no_early (NL :: M) [NL] (u ++ M) = true ->
+  has_suffix (NL :: u ++ M) (NL :: M) = true ->
+  wtoken q (k ++ [EQS; LT; LT] ++ M ++ NL :: u ++ M)
+           (here_value (k ++ [EQS]) (NL :: M) (NL :: u ++ M)).
 Proof.
-  intros Hk HMne HM Hfirst args tail.
-  replace ((k ++ [EQS; LT; LT] ++ M ++ NL :: t ++ NL :: M) ++ tail)
-    with ((k ++ [EQS; LT]) ++ LT :: M ++ NL :: (t ++ NL :: M) ++ tail).
+  intros Hk HMne HM Hne Hend args tail Hs.
+  replace ((k ++ [EQS; LT; LT] ++ M ++ NL :: u ++ M) ++ tail)
+    with ((k ++ [EQS; LT]) ++ LT :: M ++ NL :: (u ++ M) ++ tail).
   2:{ rewrite <- !app_assoc. cbn [app]. rewrite <- !app_assoc. reflexivity. }
   rewrite (token_word q _ Hk).
   cbn [run]. unfold step at 1; cbn [s_mode s_esc s_sep s_args negb andb].
@@ -428,20 +458,41 @@ Proof.
   cbn [run]. unfold step at 1; cbn [s_mode s_esc s_sep s_args].
   change (N.eqb NL NL) with true. cbn iota.
   destruct M as [|m0 M']; [congruence|].
-  unfold first_match_at_end in Hfirst. apply andb_true_iff in Hfirst as [Hend Hnot].
   rewrite (run_heredata q (removelast (k ++ [EQS; LT])) (k ++ [EQS; LT]) (NL :: m0 :: M')
-             (t ++ NL :: m0 :: M') [] args false false tail).
-  - cbn [app]. f_equal. f_equal. f_equal.
-    replace (k ++ [EQS; LT]) with ((k ++ [EQS]) ++ [LT]) by (rewrite <- app_assoc; reflexivity).
-    rewrite removelast_last. rewrite <- app_assoc. cbn [app]. f_equal. f_equal. f_equal.
-    rewrite app_length.
-    replace (length t + length (NL :: m0 :: M') - length (NL :: m0 :: M'))%nat with (length t) by lia.
-    rewrite firstn_app, firstn_all, Nat.sub_diag. cbn [firstn]. apply app_nil_r.
-  - destruct t; discriminate.
-  - exact Hend.
-  - intros n Hn. cbn [app]. rewrite forallb_forall in Hnot.
-    specialize (Hnot n). rewrite in_seq in Hnot.
-    apply negb_true_iff. apply Hnot. lia.
+             (u ++ m0 :: M') [NL] args false false tail Hne Hend Hs).
+  cbn [app].
+  replace (k ++ [EQS; LT]) with ((k ++ [EQS]) ++ [LT]) by (rewrite <- app_assoc; reflexivity).
+  rewrite removelast_last. reflexivity.
+Qed.
+
+Lemma here_value_text base M t :
+  here_value base (NL :: M) (NL :: (t ++ [NL]) ++ M) = base ++ trim t.
+Proof.
+  unfold here_value. f_equal. f_equal.
+  replace (NL :: (t ++ [NL]) ++ M) with ((NL :: t) ++ (NL :: M))
+    by (cbn [app]; rewrite <- app_assoc; reflexivity).
+  rewrite app_length.
+  replace (length (NL :: t) + length (NL :: M) - length (NL :: M))%nat with (length (NL :: t)) by lia.
+  rewrite firstn_app, firstn_all, Nat.sub_diag. cbn [firstn]. rewrite app_nil_r. reflexivity.
+Qed.
+
+Lemma here_value_empty base M : here_value base (NL :: M) (NL :: M) = base.
+Proof.
+  unfold here_value. rewrite Nat.sub_diag. cbn [firstn strip_nl]. apply app_nil_r.
+Qed.
+
+(** A heredoc with the text [t] (its lines, the last one without its newline). *)
+Lemma token_heredoc q k M t :
+  good_word (k ++ [EQS; LT]) = true ->
+  M <> [] -> forallb is_marker_char M = true ->
+  no_early (NL :: M) [NL] (t ++ NL :: M) = true ->
+  wtoken q (k ++ [EQS; LT; LT] ++ M ++ NL :: t ++ NL :: M) (k ++ EQS :: trim t).
+Proof.
+  intros Hk HMne HM Hne.
+  pose proof (token_heredoc_gen q k M (t ++ [NL]) Hk HMne HM) as H.
+  rewrite here_value_text in H. rewrite <- !app_assoc in H. cbn [app] in H.
+  apply H; [exact Hne|].
+  replace (NL :: t ++ NL :: M) with ((NL :: t) ++ NL :: M) by reflexivity. apply has_suffix_app.
 Qed.
 
 (** * argscope: positional arguments are numbered in order, named ones keep their key. *)
